@@ -231,7 +231,7 @@ func runC15(c *Ctx) error {
 	defer s.Close()
 	evc := &evCounter{n: map[string]int{}}
 	s.Services.Notifier.AddChannel(evc)
-	do := func(setup *History, conc []Sub, nreads int, prefs []int, tag string) error {
+	do := func(setup *History, conc []Sub, nreads int, prefs []int, caIDs []int, tag string) error {
 		all := &History{Forbidden: setup.Forbidden, Subs: append(append([]Sub{}, setup.Subs...), conc...)}
 		m, err := Materialize(all)
 		if err != nil {
@@ -255,6 +255,7 @@ func runC15(c *Ctx) error {
 		evc.reset()
 		outs := make([]string, len(conc))
 		tips := []int{}
+		cas := []string{}
 		var wg sync.WaitGroup
 		nthreads := len(conc)
 		for i := range conc {
@@ -278,6 +279,25 @@ func runC15(c *Ctx) error {
 						tips = append(tips, -2)
 					} else {
 						tips = append(tips, m.ID(t.Hash.String()))
+					}
+					if len(caIDs) > 0 {
+						// a common-ancestor request for headers of the SETUP (stored before the race, connected):
+						// its answer follows parent links only, so it is the same before, during and after any
+						// reorganisation the concurrent submissions cause
+						hs := make([]string, len(caIDs))
+						for x, id := range caIDs {
+							hv := m.Hash[id]
+							hs[x] = hv.String()
+						}
+						a, err := s.Services.Headers.GetCommonAncestor(hs)
+						switch {
+						case err != nil:
+							cas = append(cas, "E")
+						case a == nil:
+							cas = append(cas, "nil")
+						default:
+							cas = append(cas, strconv.Itoa(m.ID(a.Hash.String())))
+						}
 					}
 				}
 				sc.fin <- 0
@@ -322,11 +342,21 @@ func runC15(c *Ctx) error {
 			ps[i] = strconv.Itoa(p)
 		}
 		h.X = append(h.X, fmt.Sprintf("readers:%d", nreads), "prefs:"+strings.Join(ps, "."), "trace:"+strings.Join(trace, "."))
+		if len(caIDs) > 0 {
+			cs := make([]string, len(caIDs))
+			for i, id := range caIDs {
+				cs[i] = strconv.Itoa(id)
+			}
+			h.X = append(h.X, "ca:"+strings.Join(cs, "."))
+		}
 		ts := make([]string, len(tips))
 		for i, t := range tips {
 			ts[i] = strconv.Itoa(t)
 		}
-		c.Case(h.Line(), strings.Join(outs, ",")+"|"+strings.Join(ts, ",")+"|"+RowsString(rows, m)+"|"+strings.Join(evs, ","))
+		c.Case(h.Line(), strings.Join(outs, ",")+"|"+strings.Join(ts, ",")+"|"+RowsString(rows, m)+"|"+strings.Join(evs, ",")+"|"+strings.Join(cas, ","))
+		if len(caIDs) > 0 {
+			c.Count("reader:common-ancestor")
+		}
 		c.Count("gen:" + tag)
 		c.Count(fmt.Sprintf("submitters:%d", len(conc)))
 		inter := false
@@ -343,17 +373,17 @@ func runC15(c *Ctx) error {
 		}
 		return nil
 	}
-	parseConc := func(h *History) ([]Sub, int, []int, error) {
+	parseConc := func(h *History) ([]Sub, int, []int, []int, error) {
 		var conc []Sub
 		nreads := 0
-		var prefs []int
+		var prefs, caIDs []int
 		for _, x := range h.X {
 			switch {
 			case strings.HasPrefix(x, "t") && strings.Contains(x, ":") && !strings.HasPrefix(x, "trace:"):
 				p := strings.SplitN(x, ":", 2)
 				hh, err := ParseHistory(p[1])
 				if err != nil || len(hh.Subs) != 1 {
-					return nil, 0, nil, fmt.Errorf("bad concurrent sub %q", x)
+					return nil, 0, nil, nil, fmt.Errorf("bad concurrent sub %q", x)
 				}
 				conc = append(conc, hh.Subs[0])
 			case strings.HasPrefix(x, "readers:"):
@@ -364,9 +394,15 @@ func runC15(c *Ctx) error {
 						prefs = append(prefs, v)
 					}
 				}
+			case strings.HasPrefix(x, "ca:"):
+				for _, t := range strings.Split(x[3:], ".") {
+					if v, err := strconv.Atoi(t); err == nil {
+						caIDs = append(caIDs, v)
+					}
+				}
 			}
 		}
-		return conc, nreads, prefs, nil
+		return conc, nreads, prefs, caIDs, nil
 	}
 	if c.Only != "" {
 		h, err := ParseHistory(c.Only)
@@ -379,22 +415,22 @@ func runC15(c *Ctx) error {
 				return runC15Free(c, 3, len(h.Subs)*7/8)
 			}
 		}
-		conc, nreads, prefs, err := parseConc(h)
+		conc, nreads, prefs, caIDs, err := parseConc(h)
 		if err != nil {
 			return err
 		}
-		return do(&History{Forbidden: h.Forbidden, Subs: h.Subs}, conc, nreads, prefs, "only")
+		return do(&History{Forbidden: h.Forbidden, Subs: h.Subs}, conc, nreads, prefs, caIDs, "only")
 	}
 	for _, l := range corpusLines(c, "C15") {
 		h, err := ParseHistory(l)
 		if err != nil {
 			return err
 		}
-		conc, nreads, prefs, err := parseConc(h)
+		conc, nreads, prefs, caIDs, err := parseConc(h)
 		if err != nil {
 			return err
 		}
-		if err := do(&History{Forbidden: h.Forbidden, Subs: h.Subs}, conc, nreads, prefs, "corpus"); err != nil {
+		if err := do(&History{Forbidden: h.Forbidden, Subs: h.Subs}, conc, nreads, prefs, caIDs, "corpus"); err != nil {
 			return err
 		}
 	}
@@ -422,17 +458,39 @@ func runC15(c *Ctx) error {
 							continue
 						}
 						conc := []Sub{mk(10, pa, bitsW2), mk(11, pb, wb)}
-						if err := do(st, conc, 3, pat, "systematic"); err != nil {
+						if err := do(st, conc, 3, pat, nil, "systematic"); err != nil {
 							return err
 						}
 						if pa == pb && wb == bitsW2 {
 							// the SAME header submitted by two peers at once: stored once, answered duplicate once, one event
 							same := []Sub{mk(10, pa, bitsW2), mk(10, pa, bitsW2)}
-							if err := do(st, same, 2, pat, "same-header"); err != nil {
+							if err := do(st, same, 2, pat, nil, "same-header"); err != nil {
 								return err
 							}
 						}
 					}
+				}
+			}
+		}
+	}
+	// a reorganisation placed between the repository reads of ONE common-ancestor request: the reader gets k storage
+	// operations, then the submitter runs to completion (the new header switches the longest chain to the other
+	// branch), then the reader continues
+	{
+		st := &History{Subs: []Sub{mk(2, 1, bitsW2), mk(3, 2, bitsW2), mk(4, 1, bitsW2), mk(5, 3, bitsW2)}}
+		for _, ca := range [][]int{{3}, {5}, {3, 5}, {5, 3}, {2}} {
+			for k := 1; k <= 6; k++ {
+				pat := []int{}
+				for j := 0; j < k; j++ {
+					pat = append(pat, 0)
+				}
+				for j := 0; j < 10; j++ {
+					pat = append(pat, 1)
+				}
+				pat = append(pat, 0, 0, 0, 0, 0, 0, 0, 0)
+				// header 11 on the 4-branch with work 8: 2+8 > 6 -> the 2-3-5 branch becomes stale
+				if err := do(st, []Sub{mk(11, 4, bitsW8)}, 2, pat, ca, "ca-race"); err != nil {
+					return err
 				}
 			}
 		}
@@ -460,7 +518,28 @@ func runC15(c *Ctx) error {
 		for j := range prefs {
 			prefs[j] = c.Rng.Intn(k + 1)
 		}
-		if err := do(st, conc, c.Rng.Intn(5), prefs, "random"); err != nil {
+		// every other scenario: the reader also asks for the common ancestor of 1-2 connected setup headers
+		var caPick []int
+		if i%2 == 0 {
+			conn := map[int]bool{genesisID: true}
+			var cids []int
+			for _, sb := range st.Subs {
+				if conn[sb.Prev] && !conn[sb.ID] {
+					conn[sb.ID] = true
+					cids = append(cids, sb.ID)
+				}
+			}
+			if len(cids) > 0 {
+				caPick = append(caPick, cids[c.Rng.Intn(len(cids))])
+				if c.Rng.Intn(2) == 0 {
+					caPick = append(caPick, cids[c.Rng.Intn(len(cids))])
+				}
+				if len(prefs) < 6 {
+					prefs = append(prefs, 0, c.Rng.Intn(k+1), 0, c.Rng.Intn(k+1))
+				}
+			}
+		}
+		if err := do(st, conc, c.Rng.Intn(5), prefs, caPick, "random"); err != nil {
 			return err
 		}
 	}
